@@ -260,6 +260,7 @@ class Interp:
         self.max_depth = 400
         self.fn_name = '?'
         self.frame_stack = []
+        self.cover_file = None
         self.loop_index_stack = []     # index terms of the enclosing symbolic loops (arbitrary iteration)
         self.collect = None            # (code object, YSeq): the generator function under verification
 
@@ -888,6 +889,8 @@ class Interp:
             raise PyRaise(e)
 
     def is_(self, a, b):
+        if a is b and isinstance(a, Sym):
+            return True       # the very same symbolic value
         if isinstance(a, SOpt):
             if b is None:
                 return wrap(a.is_none)
@@ -896,7 +899,12 @@ class Interp:
             return self.is_(b, a)
         if isinstance(a, SChoice):
             if isinstance(b, SChoice):
-                return self.is_(self.resolve(a), b)
+                # identical iff both select the same object: no case split needed
+                hits = [z3.And(a.idx == i, b.idx == j) for i, x in enumerate(a.alts) for j, y in enumerate(b.alts)
+                        if x is y]
+                if not hits:
+                    return False
+                return wrap(z3.Or(*hits) if len(hits) > 1 else hits[0])
             hits = [a.idx == i for i, alt in enumerate(a.alts) if alt is b]
             if not hits:
                 return False
@@ -1449,7 +1457,14 @@ class Interp:
         return None
 
     def s_Return(self, node, frame):
-        return ('return', self.eval(node.value, frame) if node.value is not None else None)
+        v = self.eval(node.value, frame) if node.value is not None else None
+        self._reached(node, frame)
+        return ('return', v)
+
+    def _reached(self, node, frame):
+        """reachability cover: exit statements of the function under verification reached on this path"""
+        if frame.info.filename == self.cover_file:
+            self.st.reached.add(node.lineno)
 
     def s_Break(self, node, frame):
         return ('break',)
@@ -1613,6 +1628,7 @@ class Interp:
         return None
 
     def s_Raise(self, node, frame):
+        self._reached(node, frame)
         if node.exc is None:
             cur = getattr(frame, '_cur_exc', None) or self._current_exception
             if cur is None:
